@@ -211,13 +211,15 @@ qhasharr_t *qhasharr(void *memory, size_t memsize) {
 
     // Initialize data if memsize is set or use existing data.
     if (memsize > 0) {
-        // calculate max
-        int maxslots = (memsize - sizeof(qhasharr_data_t))
-                / sizeof(qhasharr_slot_t);
-        if (maxslots < 1 || memsize <= sizeof(qhasharr_t)) {
+        // the memory must hold the header and at least 1 slot.
+        if (memsize < sizeof(qhasharr_data_t) + sizeof(qhasharr_slot_t)) {
             errno = EINVAL;
             return NULL;
         }
+
+        // calculate max
+        int maxslots = (memsize - sizeof(qhasharr_data_t))
+                / sizeof(qhasharr_slot_t);
 
         // Set memory.
         memset((void *) tbldata, 0, memsize);
